@@ -150,3 +150,9 @@ ITEMS += [
                       cargo_deps={'saphyr-parser': '{ package = "saphyr-parser-bw", version = "0.0.608" }'}),
          ensures=[('C06:a_core_schema_tag_has_its_kind_however_it_is_spelled_and_a_foreign_tag_has_none', 'true')]),
 ]
+# ---- the float front (C06): generic over FromStr + num_traits::Float, so not even its signature is inside the verifier's subset: harness only ----
+ITEMS += [
+    dict(src='src/parse_scalars.rs', path='fn parse_yaml12_float#2', id='parse_yaml12_float', harness_only=True, bounded_only=True, trusted=True, props=[], bounded_props=['C06', 'C01'],
+         bounded=dict(harness='bounded/float_tokens.rs', items=[('src/parse_scalars.rs', 'fn parse_yaml12_float#2')], cargo_deps={'num-traits': '0.2'}),
+         ensures=[('C06:the_special_float_tokens_give_the_special_values_with_their_sign_everything_else_is_the_standard_parse_of_the_trimmed_text', 'true')]),
+]
